@@ -10,6 +10,7 @@ class Lin:
 
     def __init__(self, t=None, c=0):
         self.t = {s: v for s, v in (t or {}).items() if v != 0}
+        assert isinstance(c, int), c
         self.c = c
         self._k = None
 
